@@ -176,12 +176,11 @@ Qed.
 
 (* the generic shape of the result of add_pos: (+-)(a -+ b) / nd *)
 Lemma add_pos_spec : forall oc x y, wfr x = true -> wfr y = true -> rsign x = Positive ->
-  add_pos_known oc x y = false ->
   exists r, add_pos oc x y = Ok r /\ wfr r = true /\ (qval r == qval x + qval y)%Q.
 Proof.
-  intros oc x y Hx Hy Sx Hk. apply wfr_iff in Hx. apply wfr_iff in Hy.
+  intros oc x y Hx Hy Sx. apply wfr_iff in Hx. apply wfr_iff in Hy.
   destruct Hx as (Hxn & Hxd & Hxz). destruct Hy as (Hyn & Hyd & Hyz).
-  unfold add_pos, add_pos_known in *. rewrite is_eq_spec in * by assumption.
+  unfold add_pos in *. rewrite is_eq_spec in * by assumption.
   destruct (N.eqb_spec (val (rden x)) (val (rden y))) as [Ed|Ed].
   - (* equal denominators *)
     rewrite is_lt_spec by assumption.
@@ -197,13 +196,13 @@ Proof.
         { apply wfr_iff. cbn [rnum rden]. auto. }
         unfold qval. cbn [rsign rnum rden sq]. rewrite Sx, Sy, Vn, qn_sub by lia. cbn [sq].
         rewrite <- Ed. field. apply qn_nz. assumption.
-    + destruct (add_spec_except_known (rnum x) (rnum y) Hxn Hyn Hk) as [Wn Vn].
+    + destruct (add_spec (rnum x) (rnum y) Hxn Hyn) as [Wn Vn].
       cbn [bind]. eexists. split; [reflexivity|]. split.
       { apply wfr_iff. cbn [rnum rden]. auto. }
       unfold qval. cbn [rsign rnum rden sq]. rewrite Sx, Sy, Vn, qn_add. cbn [sq].
       rewrite <- Ed. field. apply qn_nz. assumption.
   - (* different denominators: lcm *)
-    destruct (gcd_spec oc (rden x) (rden y) Hxd Hyd) as (g & Eg & Wg & Vg). rewrite Eg in *. cbn [bind].
+    destruct (gcd_spec oc (rden x) (rden y) Hxd Hyd) as (g & Eg & Wg & Vg). rewrite Eg. cbn [bind].
     destruct (lcm_parts (val (rnum x)) (val (rden x)) (val (rnum y)) (val (rden y)) Hxz Hyz)
       as (Hgz & Hndz & Ea & Eb).
     rewrite <- Vg in Hgz, Hndz, Ea, Eb.
@@ -211,8 +210,8 @@ Proof.
     destruct (mul_spec (rnum x) (rden y) Hxn Hyd) as [Wm2 Vm2].
     destruct (mul_spec (rnum y) (rden x) Hyn Hxd) as [Wm3 Vm3].
     destruct (div_spec oc _ g Wm1 Wg Hgz) as (nd & End & Wnd & Vnd). rewrite End. cbn [bind].
-    destruct (div_spec oc _ g Wm2 Wg Hgz) as (a & Ea' & Wa & Va). rewrite Ea' in *. cbn [bind].
-    destruct (div_spec oc _ g Wm3 Wg Hgz) as (b & Eb' & Wb & Vb). rewrite Eb' in *. cbn [bind].
+    destruct (div_spec oc _ g Wm2 Wg Hgz) as (a & Ea' & Wa & Va). rewrite Ea'. cbn [bind].
+    destruct (div_spec oc _ g Wm3 Wg Hgz) as (b & Eb' & Wb & Vb). rewrite Eb'. cbn [bind].
     rewrite Vm1 in Vnd. rewrite Vm2 in Va. rewrite Vm3 in Vb.
     rewrite <- Vnd in Hndz, Ea, Eb. rewrite <- Va in Ea. rewrite <- Vb in Eb.
     assert (Qa : (qn (val a) * qn (val (rden x)) == qn (val (rnum x)) * qn (val nd))%Q)
@@ -247,18 +246,17 @@ Proof.
         field. assumption.
     + assert (Qy : (qval y == qn (val b) / qn (val nd))%Q).
       { unfold qval. rewrite Sy. cbn [sq]. rewrite <- Fb. field. assumption. }
-      destruct (add_spec_except_known a b Wa Wb Hk) as [Wn Vn].
+      destruct (add_spec a b Wa Wb) as [Wn Vn].
       cbn [bind]. eexists. split; [reflexivity|]. split.
       { apply wfr_iff. cbn [rnum rden]. auto. }
       rewrite Qx, Qy. unfold qval. cbn [rsign rnum rden sq]. rewrite Vn, qn_add.
       field. assumption.
 Qed.
 
-Lemma radd_spec_except_known : forall oc x y, wfr x = true -> wfr y = true ->
-  radd_known oc x y = false ->
+Lemma radd_spec : forall oc x y, wfr x = true -> wfr y = true ->
   exists r, add_internal oc x y = Ok r /\ wfr r = true /\ (qval r == qval x + qval y)%Q.
 Proof.
-  intros oc x y Hx Hy Hk. unfold add_internal, radd_known in *.
+  intros oc x y Hx Hy. unfold add_internal.
   destruct (rsign x) eqn:Sx.
   - destruct (add_pos_spec oc (rneg x) (rneg y)) as (r & Er & Wr & Vr); try assumption.
     { unfold rneg. cbn [rsign]. rewrite Sx. reflexivity. }
@@ -267,23 +265,14 @@ Proof.
   - apply add_pos_spec; assumption.
 Qed.
 
-(* the defect seen at the BigRat level *)
-Lemma radd_spec_refuted_witness :
-  let x := mkrat Positive (Small (W - 1)) (Small 1) in
-  let y := mkrat Positive (Large [1; W - 1]) (Small 1) in
-  wfr x = true /\ wfr y = true /\ radd_known true x y = true /\
-  add_internal true x y = Ok (mkrat Positive (Large [0; 1]) (Small 1)).
-Proof. vm_compute. auto. Qed.
-
 (* ------------------------------------------------------------------ *)
 (* cmp *)
 
-Lemma rcmp_spec_except_known : forall oc x y, wfr x = true -> wfr y = true ->
-  rcmp_known oc x y = false ->
+Lemma rcmp_spec : forall oc x y, wfr x = true -> wfr y = true ->
   rcmp oc x y = Ok (qval x ?= qval y)%Q.
 Proof.
-  intros oc x y Hx Hy Hk. unfold rcmp, rcmp_known in *.
-  destruct (radd_spec_except_known oc x (rneg y) Hx Hy Hk) as (d & Ed & Wd & Vd).
+  intros oc x y Hx Hy. unfold rcmp.
+  destruct (radd_spec oc x (rneg y) Hx Hy) as (d & Ed & Wd & Vd).
   rewrite Ed. rewrite qval_neg in Vd.
   pose proof Wd as Wd'. apply wfr_iff in Wd'. destruct Wd' as (Wn & Wdd & Wz).
   rewrite is_eq_spec by (assumption || reflexivity). cbn [val].
@@ -376,7 +365,6 @@ Qed.
 (* main branch of pow: exponent with a Positive sign *)
 Lemma pow_level_pos : forall oc recurse x y e, wfr x = true -> wfr y = true ->
   rsign y = Positive -> (qval y == inject_Z (Z.of_N e))%Q ->
-  (forall y', simplify oc y = Ok y' -> pow_known (Small 0) (rnum y') = false) ->
   match pow_level oc recurse x y with
   | Ok (r, fl) => fl = true /\ wfr r = true /\ (qval r == Qpower (qval x) (Z.of_N e))%Q /\
                   ~ ((qval x == 0)%Q /\ e = 0)
@@ -385,10 +373,9 @@ Lemma pow_level_pos : forall oc recurse x y e, wfr x = true -> wfr y = true ->
   | _ => False
   end.
 Proof.
-  intros oc recurse x y e Hx Hy Sy Qy Hk.
+  intros oc recurse x y e Hx Hy Sy Qy.
   destruct (simplify_spec oc x Hx) as (x' & Ex & Wx' & Sx' & _ & _ & _ & Qx').
   destruct (simplify_integer oc y _ Hy Qy) as (y' & Ey & Wy' & Sy' & Vd' & Vn' & Qy').
-  specialize (Hk y' Ey).
   unfold pow_level. rewrite Ex, Ey. cbn [bind].
   pose proof Wx' as Wx''. apply wfr_iff in Wx''. destruct Wx'' as (Wxn & Wxd & Wxz).
   pose proof Wy' as Wy''. apply wfr_iff in Wy''. destruct Wy'' as (Wyn & Wyd & Wyz).
@@ -400,10 +387,8 @@ Proof.
                 = Ok (if is_neg (rsign x') then e mod 2 =? 0 else true)).
   { destruct (is_neg (rsign x')); [|reflexivity]. rewrite is_even_spec by assumption. rewrite Ve. reflexivity. }
   rewrite Hev. cbn [bind].
-  assert (Hkn : pow_known (rnum x') (rnum y') = false) by exact Hk.
-  assert (Hkd : pow_known (rden x') (rnum y') = false) by exact Hk.
-  pose proof (pow_spec_except_known (rnum x') (rnum y') Wxn Wyn Hkn) as Pn.
-  pose proof (pow_spec_except_known (rden x') (rnum y') Wxd Wyn Hkd) as Pd.
+  pose proof (pow_spec (rnum x') (rnum y') Wxn Wyn) as Pn.
+  pose proof (pow_spec (rden x') (rnum y') Wxd Wyn) as Pd.
   rewrite Ve in Pn, Pd.
   assert (Zx : (qval x == 0)%Q <-> val (rnum x') = 0).
   { rewrite <- Qx'. apply qval_zero_iff. assumption. }
@@ -424,3 +409,94 @@ Proof.
   - destruct Pn as [A1 A2]. cbn [bind]. split; [apply Zx; assumption|assumption].
   - cbn [bind]. assumption.
 Qed.
+
+Lemma qval_nonneg_pos : forall y, rsign y = Positive -> wfr y = true -> (0 <= qval y)%Q.
+Proof.
+  intros y S Hy. apply wfr_iff in Hy. destruct Hy as (_ & _ & Hz).
+  unfold qval. rewrite S. cbn [sq]. rewrite Qmult_1_l.
+  apply Qle_shift_div_l; [apply qn_pos; assumption|]. rewrite Qmult_0_l. apply qn_nonneg.
+Qed.
+
+Lemma qval_nonpos_neg : forall y, rsign y = Negative -> wfr y = true -> (qval y <= 0)%Q.
+Proof.
+  intros y S Hy. pose proof (qval_nonneg_pos (rneg y)) as H.
+  unfold rneg in H at 1. cbn [rsign] in H. rewrite S in H. specialize (H eq_refl Hy).
+  rewrite qval_neg in H. apply Qopp_le_compat in H. rewrite Qopp_involutive in H. exact H.
+Qed.
+
+(* pow with an integer exponent z (the value of the exponent operand) *)
+Lemma rpow_spec : forall oc x y z, wfr x = true -> wfr y = true -> (qval y == inject_Z z)%Q ->
+  match rpow oc x y with
+  | Ok (r, fl) => fl = true /\ wfr r = true /\ (qval r == Qpower (qval x) z)%Q /\
+                  ~ ((qval x == 0)%Q /\ (z <= 0)%Z)
+  | Err EZeroPowZero => (qval x == 0)%Q /\ z = 0%Z
+  | Err EDivByZero => (qval x == 0)%Q /\ (z < 0)%Z
+  | Err EExpTooLarge => (Z.of_N W <= Z.abs z)%Z
+  | _ => False
+  end.
+Proof.
+  intros oc x y z Hx Hy Qy. unfold rpow.
+  destruct (rsign y) eqn:Sy.
+  - (* negative exponent: the function runs once more on the simplified operands *)
+    assert (Hz : (z <= 0)%Z).
+    { pose proof (qval_nonpos_neg y Sy Hy) as L. rewrite Qy in L.
+      change 0%Q with (inject_Z 0) in L. rewrite <- Zle_Qle in L. assumption. }
+    set (e := Z.to_N (- z)).
+    destruct (simplify_spec oc x Hx) as (x' & Ex & Wx' & Sx' & _ & _ & _ & Qx').
+    destruct (simplify_integer oc y _ Hy Qy) as (y' & Ey & Wy' & Sy' & Vd' & Vn' & Qy').
+    unfold pow_level at 1. rewrite Ex, Ey. cbn [bind].
+    pose proof Wy' as Wy''. apply wfr_iff in Wy''. destruct Wy'' as (Wyn & Wyd & Wyz).
+    rewrite (is_eq_spec (rden y')) by (assumption || reflexivity). cbn [val]. rewrite Vd'.
+    change (1 =? 1) with true. cbn [negb]. rewrite andb_false_r.
+    rewrite Sy', Sy. cbn [is_neg].
+    set (y2 := mkrat Positive (rnum y') (rden y')).
+    assert (Wy2 : wfr y2 = true) by exact Wy'.
+    assert (Qy2 : (qval y2 == inject_Z (Z.of_N e))%Q).
+    { unfold qval, y2. cbn [rsign rnum rden sq]. rewrite Vd'.
+      assert (Ee : val (rnum y') = e) by (unfold e; lia). rewrite Ee.
+      unfold qn. change (inject_Z (Z.of_N 1)) with 1%Q. field. }
+    pose proof (pow_level_pos oc None x' y2 e Wx' Wy2 eq_refl Qy2) as P.
+    destruct (pow_level oc None x' y2) as [[r0 fl]|[]|]; try contradiction.
+    + destruct P as (Fl & Wr0 & Qr0 & Nz). cbn [bind fst snd].
+      pose proof (rdiv_spec (rat_of_u64 1) r0 eq_refl Wr0) as D.
+      assert (Q1 : (qval (rat_of_u64 1) == 1)%Q) by reflexivity.
+      destruct (N.eqb_spec (val (rnum r0)) 0) as [Z0|Z0].
+      * rewrite D. cbn [bind].
+        apply (qval_zero_iff r0 Wr0) in Z0. rewrite Qr0, Qx' in Z0.
+        assert (X0 : (qval x == 0)%Q).
+        { destruct (Qeq_dec (qval x) 0) as [|N0]; [assumption|].
+          exfalso. exact (Qpower_not_0 _ (Z.of_N e) N0 Z0). }
+        split; [assumption|].
+        assert (e <> 0). { intro E0. apply Nz. split; [rewrite Qx'; assumption|assumption]. }
+        unfold e in *. lia.
+      * destruct D as (r & Er & Wr & Qr). rewrite Er. cbn [bind].
+        split; [assumption|]. split; [assumption|]. split.
+        { rewrite Qr, Q1, Qr0, Qx'.
+          replace z with (- Z.of_N e)%Z by (unfold e; lia).
+          rewrite Qpower_opp. field.
+          intro E0. apply Z0. apply (qval_zero_iff r0 Wr0). rewrite Qr0, Qx'. assumption. }
+        { intros [X0 _]. apply Z0. apply (qval_zero_iff r0 Wr0). rewrite Qr0, Qx', X0.
+          apply Qpower_0. intro E0. apply Nz. split; [rewrite Qx'; assumption|lia]. }
+    + destruct P as [X0 E0]. cbn [bind]. rewrite Qx' in X0. split; [assumption|]. unfold e in E0. lia.
+    + cbn [bind]. unfold e in P. lia.
+  - (* non-negative exponent *)
+    assert (Hz : (0 <= z)%Z).
+    { pose proof (qval_nonneg_pos y Sy Hy) as L. rewrite Qy in L.
+      change 0%Q with (inject_Z 0) in L. rewrite <- Zle_Qle in L. assumption. }
+    set (e := Z.to_N z).
+    assert (Qe : (qval y == inject_Z (Z.of_N e))%Q) by (rewrite Qy; unfold e; rewrite Z2N.id by assumption; reflexivity).
+    pose proof (pow_level_pos oc (Some (pow_level oc None)) x y e Hx Hy Sy Qe) as P.
+    destruct (pow_level oc (Some (pow_level oc None)) x y) as [[r fl]|[]|]; try contradiction.
+    + destruct P as (Fl & Wr & Qr & Nz).
+      split; [assumption|]. split; [assumption|]. split.
+      * rewrite Qr. unfold e. rewrite Z2N.id by assumption. reflexivity.
+      * intros [X0 Z0]. apply Nz. split; [assumption|]. unfold e. lia.
+    + destruct P as [X0 E0]. split; [assumption|]. unfold e in E0. lia.
+    + unfold e in P. lia.
+Qed.
+
+(* non-vacuity *)
+Example wfr_inhabited :
+  wfr (mkrat Negative (Large [0; 5; 0]) (Large [3; 1])) = true /\
+  wfr (mkrat Positive (Small 0) (Small 7)) = true.
+Proof. vm_compute. auto. Qed.
